@@ -540,6 +540,18 @@ def main(prop: Prop, modname: str, argv=None):
     def log(msg):
         print(f"[{pid}] {msg}", flush=True)
 
+    # watchdog: a hang (of pewlib under test, of a worker, of the driver) is an internal error, never a verdict
+    import signal
+
+    limit = int(os.environ.get("VERIF_TIMEOUT_S", "900" if tier == "quick" else "5400"))
+
+    def _timeout(signum, frame):
+        print(f"[{pid}] TIMEOUT: no verdict after {limit}s", flush=True)
+        shutil.rmtree(os.environ.get("PEWVERIF_TMPBASE", "/nonexistent"), ignore_errors=True)
+        os.killpg(os.getpgid(0), signal.SIGKILL) if os.environ.get("VERIF_KILL_GROUP") == "1" else os._exit(2)
+
+    signal.signal(signal.SIGALRM, _timeout)
+    signal.alarm(limit)
     # every per-case directory lives under one per-run directory that is removed whatever happens
     parent = os.environ.get("XDG_RUNTIME_DIR") or "/var/tmp"
     runbase = tempfile.mkdtemp(prefix="pewverif-run-", dir=parent if os.path.isdir(parent) else None)
